@@ -8,3 +8,5 @@
 #define HAVE_C15 1
 #define HAVE_C09 1
 #define HAVE_C16 1
+#define HAVE_C17 1
+#define HAVE_C18 1
